@@ -57,14 +57,14 @@ def parse_smtlib(text: str):  # noqa: C901
         # Comments
         elif char == ';':
             comment = [char]
-            # Read until newline
+            # Read until the first line-breaking character
             while pos < size:
                 char = text[pos]
                 pos += 1
                 comment.append(char)
-                if char == '\n':
+                if char in ('\n', '\r'):
                     break
-            if comment[-1] != '\n':
+            if comment[-1] not in ('\n', '\r'):
                 # end of input: a comment always carries its line break, so
                 # that it is written and read back unchanged
                 comment.append('\n')
@@ -104,7 +104,8 @@ def parse_smtlib(text: str):  # noqa: C901
                 pos += 1
                 if char in (' ', '\t', '\n', '\r'):
                     break
-                if char in ('(', ')', ';'):
+                if char in ('(', ')', ';', '"', '|'):
+                    # the next lexeme starts here
                     pos -= 1
                     break
                 token.append(char)
